@@ -92,6 +92,7 @@ inductive Outcome where
   | fresh (k : ErrKind)    -- a new error value
   | stored (k : ErrKind)   -- the very error value kept in `g.buildError`
   | compiled               -- `ErrGraphCompiled`
+  | panic                  -- the call does not return: a run-time panic escapes it
   deriving DecidableEq, Repr, Inhabited
 
 def Outcome.isOk : Outcome → Bool
@@ -196,6 +197,10 @@ structure Facts where
   branchPropagates : Bool
   /-- compile appends to the builder-owned `g.handlerPreNode` (which the runner aliases) -/
   compileMutates : Bool
+  /-- compile refuses a graph that still has a node without input/output type (a pass-through
+      node no edge or branch ever touched); without the check the nil `genericHelper` of that
+      node is dereferenced when the checkpointer tables are built -/
+  compileChecksTypes : Bool
   deriving DecidableEq, Repr, Inhabited
 
 /-- Go map iteration orders: the adversary picks the visiting order from the whole state. -/
@@ -525,12 +530,16 @@ def isDag (b : Builder) (o : COpts) : Bool := o.trigger = .allPred || b.cmp = .w
 /-- the checks of `compile` that come before the loop over `fieldMappingRecords`
     (the duplicate-target check sits inside that loop; a failing compile can therefore leave
     some appends behind – unobservable, the same compile keeps failing) -/
-def compilePre (b : Builder) (o : COpts) : Option ErrKind :=
+def Builder.hasUntyped (b : Builder) : Bool :=
+  b.nodes.any (fun n => n.inTy.isNone || n.outTy.isNone)
+
+def compilePre (f : Facts) (b : Builder) (o : COpts) : Option ErrKind :=
   if (b.cmp = .chain || b.cmp = .workflow) && o.trigger != .unset then some .triggerModeOnChain
   else if b.cmp != .workflow && o.getState then some .getStateOutsideWorkflow
   else if b.startNodes.isEmpty then some .noStart
   else if b.endNodes.isEmpty then some .noEnd
   else if b.toValidate.any (fun p => !p.2.isEmpty) then some .uninferred
+  else if f.compileChecksTypes && b.hasUntyped then some .uninferred
   else if hasDup b.fmRecords then some .dupMapTarget
   else none
 
@@ -539,10 +548,13 @@ def compilePre (b : Builder) (o : COpts) : Option ErrKind :=
 def preNodeAfter (b : Builder) : List (Key × Nat) :=
   (dedupKeys (b.fmRecords.map (·.1))).foldl bump b.preNode
 
-/-- the checks after the runner has been assembled -/
-def compilePost (b : Builder) (ord : Ord) (o : COpts) : Option ErrKind :=
-  if isDag b o && !validateDAG b ord then some .dagLoop
-  else if isDag b o && o.maxSteps > 0 then some .maxStepsInDag
+/-- the steps after the runner has been assembled: Kahn's loop, the checkpointer tables
+    (which read every node's generic helper: nil for a node that never got a type), the
+    step-limit rule -/
+def compilePost (b : Builder) (ord : Ord) (o : COpts) : Option Outcome :=
+  if isDag b o && !validateDAG b ord then some (.fresh .dagLoop)
+  else if b.hasUntyped then some .panic
+  else if isDag b o && o.maxSteps > 0 then some (.fresh .maxStepsInDag)
   else none
 
 def mkRunner (f : Facts) (b : Builder) (o : COpts) : Runner :=
@@ -561,11 +573,11 @@ def compile (f : Facts) (ord : Ord) (b : Builder) (o : COpts) : Builder × Outco
   match b.buildError with
   | some k => (b, .stored k, none)
   | none =>
-    match compilePre b o with
+    match compilePre f b o with
     | some k => (b, .fresh k, none)
     | none =>
       match compilePost (mutatePre f b) ord o with
-      | some k => (mutatePre f b, .fresh k, none)
+      | some oc => (mutatePre f b, oc, none)
       | none => ((mutatePre f b).setCompiled, .ok, some (mkRunner f b o))
 
 /-- the handler list the runner built by an earlier compile uses *now*, given the builder's
